@@ -99,8 +99,8 @@ Fixpoint apply_changes (fx : bool) (contents : list N) (chs : list change) : Res
   | [] => Ok (inl contents)
   | ch :: rest =>
     match c_range ch with
-    | None => if c_rlen ch =? 0 then apply_changes fx (c_text ch) rest     (* new full content *)
-              else Fault NilDeref                                           (* change.Range.Start on a nil Range *)
+    | None => if fx || (c_rlen ch =? 0) then apply_changes fx (c_text ch) rest   (* new full content; repaired code: whatever RangeLength says *)
+              else Fault NilDeref                                           (* pre-fix: change.Range.Start on a nil Range *)
     | Some r =>
       match offset_gen fx contents r with
       | OffErr e => Ok (inr (APos e))
